@@ -37,6 +37,8 @@ type Failure struct {
 }
 
 type PathState struct {
+	cellChoice map[cellKey]int // regexp byte-cell chosen for a symbolic byte on this path
+	loopBound int // harness-declared bound on the iterations of any one loop activation (0 = none)
 	prefix    []Decision
 	pos       int
 	decisions []Decision
